@@ -11,6 +11,7 @@ SPEC = {
         "prost decode/encode, the DER signature parser, StandardPathView::try_from_slice and SocketAddr parse/print are oracles: the model receives their results on the bytes of each case",
     ],
     "trusted_extra": [
+        "framing of the signed input: the protobuf encoding of HeaderAndBodyInternal (two non-empty length-delimited fields) and DER signatures are prefix-free (premises of reorder_changes_digest_input; instance Framing.LenPrefixed)",
         "p256/ecdsa/sha2 (signature scheme and digests), prost/prost-types (protobuf codec, Duration normalisation is modelled), std SocketAddr text form: not modelled, used as oracles",
     ],
 }
